@@ -125,6 +125,7 @@ theorem table_conforms (P : Policy) (T : List Site) (W : World) (tr : Trace)
     cases hk : s.kind with
     | read => rw [hk] at hkind; exact hkind
     | call m => rw [hk] at hkind; exact hkind
+    | alias => rw [hk] at hkind; exact hkind
     | write => rw [hk] at hr; cases hr
     | atomic => rw [hk] at hr; cases hr
     | addr => rw [hk] at hr; cases hr
@@ -154,6 +155,7 @@ theorem table_conforms (P : Policy) (T : List Site) (W : World) (tr : Trace)
       · exact ⟨hkind.2, Or.inr ⟨hkind.1, hsh m h⟩⟩
     | atomic => rw [hk] at hg; cases hg
     | addr => rw [hk] at hg; cases hg
+    | alias => rw [hk] at hg; cases hg
   | owned k =>
     have hr := classify_owned P _ _ T k hcl s hmem
     simp only
@@ -161,6 +163,7 @@ theorem table_conforms (P : Policy) (T : List Site) (W : World) (tr : Trace)
     cases hk : s.kind with
     | read => rw [hk] at hkind; exact hkind.2
     | call m => rw [hk] at hkind; exact hkind.2
+    | alias => rw [hk] at hkind; exact hkind.2
     | write => rw [hk] at hkind; exact hkind.2
     | atomic => rw [hk] at hr; rcases hr with h | h <;> cases h
     | addr => rw [hk] at hr; rcases hr with h | h <;> cases h
